@@ -95,12 +95,17 @@ func Round(x float64, prec jtypes.OptionalInt) float64 {
 		}
 	}
 
-	x, _ = r.SetInt(q).Quo(r, scale).Float64()
-	if x == 0 {
+	res, _ := r.SetInt(q).Quo(r, scale).Float64()
+	if res == 0 {
 		return 0
 	}
+	if math.IsInf(res, 0) {
+		// The rounded value is beyond the largest
+		// number (1.7e308 to the nearest 1e308).
+		return x
+	}
 
-	return x
+	return res
 }
 
 // Power returns x to the power of y.
